@@ -2,6 +2,7 @@
 package c14
 
 import (
+	"sync"
 	"bytes"
 	"context"
 	"encoding/json"
@@ -165,6 +166,9 @@ type Case struct {
 	Doc    *Doc     `json:"doc,omitempty"`     // when the body was built from a document spec
 	ErrDoc []string `json:"err_doc,omitempty"` // DAV:error condition element names "ns local"
 	ErrPad int      `json:"err_pad,omitempty"` // bytes of comment + white space in front of the condition elements
+	// Warm: the judged call is the second one made through the same client object; the first was answered with a
+	// failure ("error") or with a digestible success ("ok").  What the first call saw must not show in the second.
+	Warm string `json:"warm,omitempty"`
 }
 
 const icalText = "BEGIN:VCALENDAR\r\nVERSION:2.0\r\nPRODID:-//verif//EN\r\nBEGIN:VEVENT\r\nUID:u1\r\nDTSTAMP:20200101T000000Z\r\nDTSTART:20200101T000000Z\r\nEND:VEVENT\r\nEND:VCALENDAR\r\n"
@@ -284,17 +288,48 @@ type methodInfo struct {
 	call     func(ctx context.Context, hc webdav.HTTPClient) (any, error)
 }
 
-func wd(hc webdav.HTTPClient) *webdav.Client {
-	c, _ := webdav.NewClient(hc, "http://dav.example/base/")
-	return c
-}
-func cal(hc webdav.HTTPClient) *caldav.Client {
+// one client object per transport: a case that makes two calls through one *fake uses the same client twice
+var clientsOf sync.Map // webdav.HTTPClient -> *[3]any
+
+func clients(hc webdav.HTTPClient) *[3]any {
+	if v, ok := clientsOf.Load(hc); ok {
+		return v.(*[3]any)
+	}
+	w, _ := webdav.NewClient(hc, "http://dav.example/base/")
 	c, _ := caldav.NewClient(hc, "http://dav.example/base/")
-	return c
+	a, _ := carddav.NewClient(hc, "http://dav.example/base/")
+	v, _ := clientsOf.LoadOrStore(hc, &[3]any{w, c, a})
+	return v.(*[3]any)
 }
-func card(hc webdav.HTTPClient) *carddav.Client {
-	c, _ := carddav.NewClient(hc, "http://dav.example/base/")
-	return c
+func wd(hc webdav.HTTPClient) *webdav.Client     { return clients(hc)[0].(*webdav.Client) }
+func cal(hc webdav.HTTPClient) *caldav.Client    { return clients(hc)[1].(*caldav.Client) }
+func card(hc webdav.HTTPClient) *carddav.Client { return clients(hc)[2].(*carddav.Client) }
+
+// warmScript: the response to an earlier call made through the same client object (Case.Warm): "error" a failure,
+// "ok" a success the method can digest, with every marker value spelled "...warmvalue..." so that anything the judged
+// call returns from it can be recognised
+func warmScript(m *methodInfo, kind string) script {
+	if kind == "error" {
+		return script{Status: 503, CT: "text/plain", Body: "warmvalue: try again later"}
+	}
+	if m.multi {
+		r := RespSpec{Coll: m.collOnly}
+		if m.flat {
+			r.Href = "self"
+		}
+		for _, n := range append(append([]string{}, m.required...), m.optional...) {
+			r.Props = append(r.Props, PropSpec{Name: n, Status: 200})
+		}
+		d := Doc{Resps: []RespSpec{r}, Self: m.self, Token: "warmvalue-token"}
+		return script{Status: 207, CT: "application/xml", Body: vev.B(strings.ReplaceAll(d.render(), "-value", "-warmvalue"))}
+	}
+	switch m.name {
+	case "caldav.GetCalendarObject", "caldav.PutCalendarObject":
+		return script{Status: 200, CT: "text/calendar", Body: vev.B(strings.ReplaceAll(icalText, "UID:u1", "UID:warmvalue")), Hdr: [][2]string{{"ETag", `"warmvalue"`}, {"Location", "/warmvalue"}}}
+	case "carddav.GetAddressObject", "carddav.PutAddressObject":
+		return script{Status: 200, CT: "text/vcard", Body: vev.B(strings.ReplaceAll(vcardText, "FN:x", "FN:warmvalue")), Hdr: [][2]string{{"ETag", `"warmvalue"`}, {"Location", "/warmvalue"}}}
+	}
+	return script{Status: 201, Body: "warmvalue", Hdr: [][2]string{{"ETag", `"warmvalue"`}, {"DAV", "1, warmvalue"}}}
 }
 
 func sampleCal() *ical.Calendar {
@@ -554,7 +589,14 @@ func evaluate(c Case) (o vev.Outcome, err error) {
 			}
 			ch <- r
 		}()
-		r.v, r.err = m.call(context.Background(), &fake{s})
+		f := &fake{s}
+		defer clientsOf.Delete(webdav.HTTPClient(f))
+		if c.Warm != "" {
+			f.s = warmScript(m, c.Warm)
+			m.call(context.Background(), f)
+			f.s = s
+		}
+		r.v, r.err = m.call(context.Background(), f)
 	}()
 	var r result
 	timer := time.NewTimer(20 * time.Second)
@@ -566,6 +608,14 @@ func evaluate(c Case) (o vev.Outcome, err error) {
 	}
 	if r.pan != nil {
 		return dev(m.name+"|panic", "%s panicked on status %d body %.200q: %v", m.name, s.Status, string(s.Body), r.pan), nil
+	}
+	if c.Warm != "" {
+		rec.Count("second-call-on-one-client/"+c.Warm, 1)
+		if r.err == nil {
+			if b, _ := json.Marshal(r.v); strings.Contains(string(b), "warmvalue") && !strings.Contains(string(s.Body), "warmvalue") {
+				return dev(m.name+"|stale-data-from-earlier-call", "%s returned %s: that comes from the response to the earlier call on the same client, not from this one (status %d, body %.200q)", m.name, b, s.Status, string(s.Body)), nil
+			}
+		}
 	}
 	broken := s.BodyFail != nil && *s.BodyFail < len(s.Body)
 	if broken {
@@ -936,6 +986,9 @@ func TestStatusMatrix(t *testing.T) {
 				c.Script.NoLength = true
 				run(t, nil, c, fmt.Sprintf("matrix-no-length/%dxx", code/100))
 				c.Script.NoLength = false
+				c.Warm = []string{"ok", "error"}[(code+k)%2]
+				run(t, nil, c, fmt.Sprintf("matrix-second-call/%dxx", code/100))
+				c.Warm = ""
 				if k > 0 {
 					// the same response breaking off at the very start, and after a few bytes, of its body
 					for j, cut := range []int{0, 7} {
@@ -1018,6 +1071,7 @@ func TestDocuments(t *testing.T) {
 			c.Script.Status = rapid.SampledFrom([]int{200, 201, 204, 206, 404, 500}).Draw(rt, "st")
 		}
 		c.Script.NoLength = rapid.IntRange(0, 3).Draw(rt, "nolength") == 0
+		c.Warm = rapid.SampledFrom([]string{"", "", "", "ok", "error"}).Draw(rt, "warm")
 		if rapid.IntRange(0, 6).Draw(rt, "breaks") == 0 {
 			k := rapid.IntRange(0, len(c.Doc.render())).Draw(rt, "breaks-at")
 			c.Script.BodyFail, c.Script.BodyErr = &k, rapid.SampledFrom([]string{"unexpected-eof", "reset"}).Draw(rt, "breaks-how")
@@ -1052,6 +1106,7 @@ func TestArbitraryResponses(t *testing.T) {
 			c.ErrPad = rapid.SampledFrom([]int{0, 0, 0, 900, 1100, 5000, 70000}).Draw(rt, "errpad")
 		}
 		c.Script.NoLength = rapid.IntRange(0, 3).Draw(rt, "nolength") == 0
+		c.Warm = rapid.SampledFrom([]string{"", "", "", "ok", "error"}).Draw(rt, "warm")
 		if rapid.IntRange(0, 4).Draw(rt, "breaks") == 0 {
 			k := rapid.SampledFrom([]int{0, 1, 10, 100, 500, 1023, 1024, 1025, 5000}).Draw(rt, "breaks-at")
 			c.Script.BodyFail, c.Script.BodyErr = &k, rapid.SampledFrom([]string{"unexpected-eof", "reset"}).Draw(rt, "breaks-how")
